@@ -11,7 +11,7 @@ import (
 // C12 — in-place edit is all-or-nothing.
 
 func init() {
-	register("C12", "Decides structural necessary conditions of '-i leaves the complete old or the complete new content': (W1) census — every call in the module that mutates the file system by path or descriptor has a role in a closed table (temp-create, temp-mode, temp-owner, temp-remove, commit-rename, fallback-copy, split-output, front-matter-temp); an unlisted (function, callee) pair is a violation; (W2) the target-writing roles are reachable only through FinishWriteInPlace, only on its evaluatedSuccessfully branch; FinishWriteInPlace is called only from the deferred closures of the two RunE functions, only under `cmdError == nil`, with the global completedSuccessfully, whose every store is `err == nil` of the evaluation call; (W3) no target-writing role truncates the destination before the complete new content exists elsewhere; (W4) every success return of CreateTempFile passes os.Chmod(temp, Stat(target).Mode()); (W5) the printer flushes the writer it obtains and returns the flush error (shared with C19-E2). Does NOT decide behaviour at an actual kill point or injected fault.", runC12)
+	register("C12", "Decides structural necessary conditions of '-i leaves the complete old or the complete new content': (W1) census — every call in the module that mutates the file system by path or descriptor has a role in a closed table (temp-create, temp-mode, temp-owner, temp-remove, commit-rename, fallback-copy, split-output, front-matter-temp); an unlisted (function, callee) pair is a violation; (W2) the target-writing roles are reachable only through FinishWriteInPlace, only on its evaluatedSuccessfully branch; FinishWriteInPlace is called only from the deferred closures of the two RunE functions, only under `cmdError == nil`, with the global completedSuccessfully, whose every store is `err == nil` of the evaluation call; (W3) no target-writing role truncates the destination before the complete new content exists elsewhere; (W4) every success return of CreateTempFile passes os.Chmod(temp, Stat(target).Mode()); (W5) the printer flushes the writer it obtains and returns the flush error (shared with C19-E2). (W4b) every Chmod sets a FileInfo's Mode() unmodified. Does NOT decide behaviour at an actual kill point or injected fault.", runC12)
 }
 
 // fsMutators: qualified callee names that change the file system.
